@@ -33,18 +33,22 @@ the two deferred lists:
 * `owner_reply_delivered`: when the owner of the called object answers `bs` with result `r`, the turn of the broker
   puts exactly one message into a queue: `CallFunctionReply(n, r)` for `c` — the caller's serial, the owner's result
   and payload — and the call is gone from both tables;
-* `foreign_reply_not_delivered`: a reply from any other connection puts nothing into any queue and the call stays.
+* `foreign_reply_not_delivered`: a reply from any other connection puts nothing into any queue and the call stays;
+* `abort_is_answered`: when `c` aborts its pending call `(c, n)` and is still served after the turn, exactly one
+  `CallFunctionReply` with serial `n` was put into its queue in that turn, it says `Aborted`, and the call is no longer
+  pending at `c` — whatever else the turn does (a callee whose task is gone is removed with all it owns).
 
 *Every state, one handler* (as before): `no_service`, `owner_reply_forwarded`, `unknown_reply_ignored`,
 `foreign_reply_ignored`, `abort_answers_once`, `reply_after_abort_is_dropped`, `abort_twice_silent`.
 
 Partial: that a pending call *is* answered when its service or object is destroyed or its owner disconnects
-(the callee's side of the invariant: `Service::function_calls` against `function_calls`), that an abort is answered in
-the same turn, and the absence of panics, are not theorems; they are tied by the correspondence runs (all
+(the callee's side of the invariant: `Service::function_calls` against `function_calls`) and the absence of panics
+other than the three `remove_call` assertions (C11) are not theorems; they are tied by the correspondence runs (all
 interleavings the harness generates, with serial reuse, also right after an abort).
 -/
 import Aldrin.Lemmas.Broker.Events
 import Aldrin.Lemmas.Broker.Xref2
+import Aldrin.Lemmas.Broker.RepExt
 
 set_option linter.unusedSimpArgs false
 set_option linter.unusedVariables false
@@ -354,6 +358,106 @@ theorem foreign_reply_not_delivered {b b' : Broker} {w w' : Work} (h : Reachable
   obtain ⟨rfl, rfl, rfl⟩ := hs
   subst hS
   exact ⟨rfl, by simpa using hg, rfl⟩
+
+
+
+/-! ### every reachable state: an abort is answered in the same turn -/
+
+/-- what `abort_call` does to a live call whose caller is there with its task running -/
+theorem abortCall_live_spec {sv} {s s' : St} (hx : XrefP sv s) {c : ConnId} {conn : Conn} {n bs : Nat} {callee cid : ConnId}
+    (hc : AL.find? c s.b.conns = some conn) (hal : conn.alive = true) (he : AL.find? n conn.calls = some (bs, callee))
+    (hR : ∀ r, (n, c, r) ∉ s.w.removeCalls) (h : abortCall s bs cid = .ok s') :
+    repl c n s'.out = repl c n s.out ++ [⟨c, .callFunctionReply n .aborted, none⟩] ∧
+    ck s' c = some (AL.erase n conn.calls, true) := by
+  have hk : ck s c = some (conn.calls, conn.alive) := ck_of_find hc
+  obtain ⟨call, hg, rfl, rfl, h3⟩ : ∃ call, s.b.calls.get? bs = some call ∧ call.callerSerial = n ∧ call.callerConn = c ∧ call.aborted = false := by
+    rcases hx.a c _ _ n bs callee hk he with h1 | ⟨_, r, hr⟩
+    · exact h1
+    · exact absurd hr (hR r)
+  rw [abortCall_eq] at h
+  simp only [hg, h3, Bool.false_eq_true, ↓reduceIte] at h
+  have f2 := notifyCallee_frame (s.setCalls (s.b.calls.set bs { call with aborted := true })) cid bs
+  have hk2 : ck (notifyCallee (s.setCalls (s.b.calls.set bs { call with aborted := true })) cid bs) call.callerConn = some (conn.calls, conn.alive) := by
+    rw [f2.1 call.callerConn]; simpa using hk
+  unfold ck at hk2
+  split at hk2
+  · rename_i caller hcaller
+    simp only [Option.some.injEq, Prod.mk.injEq] at hk2
+    have hcaller' : (notifyCallee (s.setCalls (s.b.calls.set bs { call with aborted := true })) cid bs).conn? call.callerConn = some caller := hcaller
+    simp only [hcaller'] at h
+    split at h
+    · simp at h
+    · simp only [Except.ok.injEq] at h; subst h
+      have hal' : caller.alive = true := by rw [hk2.2]; exact hal
+      constructor
+      · simp only [sendOrRemove_out_eq, send_snd_alive, aliveB_setConn, ↓reduceIte, hal', St.setConn_out, repl_append]
+        have hn : repl call.callerConn call.callerSerial (notifyCallee (s.setCalls (s.b.calls.set bs { call with aborted := true })) cid bs).out = repl call.callerConn call.callerSerial s.out := by
+          unfold notifyCallee
+          split
+          · split
+            · simp only [sendOrRemove_out_eq]
+              split <;> simp [repl, isRep]
+            · rfl
+          · rfl
+        rw [hn]
+        simp [repl, isRep]
+      · simp only [ck_sendOrRemove, ck_setConn, ↓reduceIte, hk2.1, hal']
+  · simp at hk2
+
+/-- **An abort is answered in the same turn.** In a reachable state let connection `c` (version with
+`AbortFunctionCall`) have the pending call `n ↦ bs`. If `c` aborts it and is still served after the turn, then exactly
+one `CallFunctionReply` with serial `n` was put into its queue in that turn, it says `Aborted`, and the call is no
+longer pending at `c` — whatever else the turn did (the callee may be gone, which removes it and everything it owns). -/
+theorem abort_is_answered {b b' : Broker} {w w' : Work} (hre : Reachable b w) {c : ConnId} {conn : Conn} {n bs : Nat} {callee : ConnId}
+    (hc : AL.find? c b.conns = some conn) (he : AL.find? n conn.calls = some (bs, callee))
+    (hv : ¬ conn.version < gateAbortFunctionCall) {out : List Out}
+    (hs : step b w (.msg c (.abortFunctionCall n)) = .ok (b', w', out)) (hl : Live b' c) :
+    repl c n out = [⟨c, .callFunctionReply n .aborted, none⟩] ∧ pendingCall b' c n = 0 := by
+  have hi := hre.idle
+  obtain ⟨h1, h2, h3, h4, h5, h6, h7, h8, h9, h10⟩ := hi.i
+  unfold step at hs
+  simp only [handleEvent, handleMessage, abortFunctionCall, St.conn?, hc, hv, he, ↓reduceIte, okH, h10] at hs
+  generalize hS : (({ b := b, w := w, out := [] } : St).setWAbortCalls [(bs, callee)]).stat (fun st => { st with messagesReceived := st.messagesReceived + 1 }) = S at hs
+  obtain ⟨k, hk⟩ := loopFuel_pos S
+  rw [hk] at hs
+  have hone : processOne S = some (abortCall (S.setWAbortCalls []) bs callee) := by
+    subst hS; simp [processOne, h1, h2, h3, h4, h5, h6, h7, h8, h9]
+  simp only [processLoop, hone] at hs
+  cases hab : abortCall (S.setWAbortCalls []) bs callee with
+  | error p => simp [hab] at hs
+  | ok s2 =>
+    simp only [hab] at hs
+    cases hl2 : processLoop k s2 with
+    | error p => simp [hl2] at hs
+    | ok s3 =>
+      simp only [hl2, Except.ok.injEq, Prod.mk.injEq] at hs
+      obtain ⟨rfl, rfl, rfl⟩ := hs
+      -- `c` is served at the end, hence all along
+      obtain ⟨t3, ht3⟩ := (live_iff_ck (w := s3.w)).1 hl
+      have ht3' : ck s3 c = some (t3, true) := ht3
+      obtain ⟨t2, ht2, q⟩ := processLoop_bal (c := c) (n := n) _ _ _ hl2 t3 ht3'
+      -- the state `abort_call` runs on
+      have hx0 : Xref (S.setWAbortCalls []) := by
+        subst hS; exact XrefP.of_eq (s := ⟨b, w, []⟩) rfl rfl rfl (by simp [h10]) hi.x
+      have hc0 : AL.find? c (S.setWAbortCalls []).b.conns = some conn := by subst hS; simpa using hc
+      have hal : conn.alive = true := by
+        have := abortCall_alive hab c (ck_alive ht2)
+        subst hS
+        simpa [aliveB, hc] using this
+      have hR0 : ∀ r, (n, c, r) ∉ (S.setWAbortCalls []).w.removeCalls := by subst hS; simp [h5]
+      obtain ⟨e1, e2⟩ := abortCall_live_spec hx0 hc0 hal he hR0 hab
+      have hout0 : repl c n (S.setWAbortCalls []).out = [] := by subst hS; rfl
+      rw [hout0, List.nil_append] at e1
+      rw [e2] at ht2
+      simp only [Option.some.injEq, Prod.mk.injEq, and_true] at ht2
+      subst ht2
+      obtain ⟨l, hext⟩ := processLoop_repext (c := c) (n := n) _ _ _ hl2
+      rw [e1] at hext
+      simp only [reps_eq_length, hext, e1, List.length_append, List.length_cons, List.length_nil, pendC_erase_self] at q
+      have hl0 : l = [] := List.eq_nil_of_length_eq_zero (by omega)
+      subst hl0
+      refine ⟨by simpa using hext, ?_⟩
+      rw [pendingCall_of_ck ht3]; omega
 
 
 end Aldrin.Broker
